@@ -290,25 +290,7 @@ func m2(c *Case, mc *M2Case) *M2Result {
 		}
 	}
 	if why == "" && mc.WantRoot && lib.Class == "ok" && mod.Root != nil {
-		m := &Model{tags: mod.Tags}
-		g, gerr := m.toGo(*mod.Root, nil)
-		switch {
-		case !lib.HasRoot:
-			why = "no root document although values were processed"
-		case gerr != "":
-			if lib.RootErr == "" {
-				why = "root document is " + gerr + " but was serialised: " + clip(lib.RootJSON, 80)
-			}
-		case lib.RootErr != "":
-			why = "root document could not be serialised: " + lib.RootErr
-		default:
-			got, _, err := decodeOne([]byte(lib.RootJSON))
-			if err != nil {
-				why = "root JSON invalid: " + err.Error()
-			} else if !jsonEqual(g, got) {
-				why = "root document differs at " + firstDiffPath(g, got, "$")
-			}
-		}
+		why = rootWhy(mod, lib)
 	}
 	if why == "" && mc.CheckM4 && lib.FrameFault != "" {
 		why = "M4: " + lib.FrameFault
@@ -368,4 +350,29 @@ func pinnedTags(m *MOut) []string {
 		}
 	}
 	return ts
+}
+
+// rootWhy compares the document that -o would write with the model's root ("" = equal).
+func rootWhy(mod *MOut, lib *Outcome) string {
+	why := ""
+	m := &Model{tags: mod.Tags}
+	g, gerr := m.toGo(*mod.Root, nil)
+	switch {
+	case !lib.HasRoot:
+		why = "no root document although values were processed"
+	case gerr != "":
+		if lib.RootErr == "" {
+			why = "root document is " + gerr + " but was serialised: " + clip(lib.RootJSON, 80)
+		}
+	case lib.RootErr != "":
+		why = "root document could not be serialised: " + lib.RootErr
+	default:
+		got, _, err := decodeOne([]byte(lib.RootJSON))
+		if err != nil {
+			why = "root JSON invalid: " + err.Error()
+		} else if !jsonEqual(g, got) {
+			why = "root document differs at " + firstDiffPath(g, got, "$")
+		}
+	}
+	return why
 }
